@@ -137,12 +137,14 @@ impl Check for Usability {
 fn ustrategy() -> BoxedStrategy<UCase> {
     (
         prop_oneof![Just(Ctor::Bloom), Just(Ctor::Cuckoo4), Just(Ctor::Cuckoo8)],
-        prop_oneof![3 => prop_oneof![Just(1usize), Just(2), Just(3), Just(10), Just(50), Just(1000)], 2 => 1usize..3000],
+        prop_oneof![30 => prop_oneof![Just(1usize), Just(2), Just(3), Just(10), Just(50), Just(1000)], 20 => 1usize..3000, 1 => prop_oneof![Just(65_536usize), Just(100_000), Just(262_145)]],
         prop_oneof![
             3 => prop_oneof![Just(0.999f64), Just(0.9), Just(0.75), Just(0.51), Just(0.5), Just(0.3), Just(0.1), Just(1e-2), Just(1e-4), Just(1e-6)],
             2 => 0.5f64..1.0,
             2 => (0.0f64..9.0).prop_map(|e| 10f64.powf(-e)),
             1 => 1e-9f64..1.0,
+            // down to the smallest rate whose cuckoo fingerprint still fits 64 bits
+            1 => (9.0f64..18.0).prop_map(|e| 10f64.powf(-e)),
         ],
         any::<u64>(),
     )
